@@ -11,12 +11,12 @@ def is_sanitiser(st, name):
         t, v = st.targets[0], st.value
         if isinstance(t, ast.Subscript) and isinstance(t.value, ast.Name) and t.value.id == name:
             m = norm(t.slice).replace(' ', '')
-            isnan_rhs = norm(v).split('.')[-1].lower() == 'nan'
+            isnan_rhs = is_nan_expr(v)
             if isnan_rhs and (m.endswith(f'isinf({name})') or m.endswith(f'isfinite({name})') and m.startswith('~')):
                 return True
         if isinstance(t, ast.Name) and t.id == name and isinstance(v, ast.Call) and norm(v.func).split('.')[-1] == 'where' and len(v.args) == 3:
             c = norm(v.args[0]).replace(' ', '')
-            if c.endswith(f'isinf({name})') and norm(v.args[1]).split('.')[-1].lower() == 'nan' and norm(v.args[2]) == name:
+            if c.endswith(f'isinf({name})') and is_nan_expr(v.args[1]) and norm(v.args[2]) == name:
                 return True
     return False
 
@@ -48,6 +48,18 @@ def sanitised_at(fnode, use_stmt, name):
 
 MAYINF, CLEAN = 'mayinf', 'clean'
 LOSES_INF = {'clip', 'minimum', 'maximum', 'fmin', 'fmax', 'nan_to_num', 'sign', 'tanh', 'arctan', 'isfinite_where'}
+
+
+def is_nan_expr(e):
+    """np.nan / numpy.nan / float('nan') / math.nan, possibly wrapped in a one-argument cast (`x.dtype.type(np.nan)`, `np.float32(np.nan)`)"""
+    if isinstance(e, (ast.Name, ast.Attribute)):
+        return norm(e).split('.')[-1].lower() == 'nan'
+    if isinstance(e, ast.Call) and len(e.args) == 1 and not e.keywords:
+        a = e.args[0]
+        if isinstance(a, ast.Constant) and isinstance(a.value, str) and a.value.lower() == 'nan':
+            return norm(e.func) == 'float'
+        return is_nan_expr(a)
+    return False
 
 
 def _isinf_of(e):
@@ -86,8 +98,8 @@ class Taint:
             name = norm(e.func).split('.')[-1]
             if name == 'where' and len(e.args) == 3:
                 x = _isinf_of(e.args[0])
-                nan1 = norm(e.args[1]).split('.')[-1].lower() == 'nan'
-                nan2 = norm(e.args[2]).split('.')[-1].lower() == 'nan'
+                nan1 = is_nan_expr(e.args[1])
+                nan2 = is_nan_expr(e.args[2])
                 if x is not None and nan1 and norm(e.args[2]) == x:
                     self.ev(e.args[2])
                     return CLEAN
@@ -148,7 +160,7 @@ class Taint:
             t, v = st.targets[0], st.value
             if isinstance(t, ast.Subscript) and isinstance(t.value, ast.Name):
                 x = _isinf_of(t.slice)
-                if x == t.value.id and norm(v).split('.')[-1].lower() == 'nan':
+                if x == t.value.id and is_nan_expr(v):
                     self.env[t.value.id] = CLEAN            # x[isinf(x)] = nan
                     return
                 val = self.ev(v)
@@ -179,7 +191,7 @@ class Taint:
             else:
                 mask_ = c.args[1] if len(c.args) > 1 else None
                 val_ = c.args[2] if len(c.args) > 2 else None
-            if isinstance(tgt, ast.Name) and val_ is not None and mask_ is not None and norm(val_).split('.')[-1].lower() == 'nan' and _isinf_of(mask_) == tgt.id:
+            if isinstance(tgt, ast.Name) and val_ is not None and mask_ is not None and is_nan_expr(val_) and _isinf_of(mask_) == tgt.id:
                 self.env[tgt.id] = CLEAN
             else:
                 self.ev(st.value)
